@@ -133,9 +133,13 @@ func carriesHandler(id string) bool { return id != "" && !strings.HasPrefix(id, 
 
 // buildDescs fills cfg.descs: registered streams are represented by the very
 // element of the ServiceDesc.Streams slice that was handed to RegisterService.
-func (cfg *config) buildDescs(set string, raw []*grpc.ServiceDesc, mk func(key, name string) grpc.StreamDesc) {
+func (cfg *config) buildDescs(set string, raw []*grpc.ServiceDesc, all bool, mk func(key, name string) grpc.StreamDesc) {
 	cfg.descs = map[string]*grpc.StreamDesc{}
-	for _, id := range descIDs(set) {
+	ids := descIDs(set)
+	if !all {
+		ids = ids[:1] // the bare one only (registration sequences, seqs.go)
+	}
+	for _, id := range ids {
 		switch {
 		case id == "":
 			cfg.descs[id] = &grpc.StreamDesc{StreamName: "x", ClientStreams: true, ServerStreams: true}
